@@ -2088,9 +2088,7 @@ func (fr *Frame) callBuiltin(st *State, name string, args []Value, cc *ssa.CallC
 			return nil
 		}), true
 	case "append":
-		return mapChoice2(args[0], args[1], func(a, b Value) Value {
-			return in.doAppend(st, a.(SliceVal), b, instr)
-		}), true
+		return in.appendChoice(st, args[0], args[1], instr), true
 	case "copy":
 		dst, ok1 := args[0].(SliceVal)
 		if !ok1 {
@@ -2134,7 +2132,43 @@ func (fr *Frame) callBuiltin(st *State, name string, args []Value, cc *ssa.CallC
 	return nil, false
 }
 
+// appendChoice: append where the destination (and/or the source) may be multi-valued. The alternatives are
+// mutually exclusive worlds that may share one backing array, so in-place writes are guarded by the alternative's condition.
+func (in *Interp) appendChoice(st *State, dst, add Value, instr ssa.Instruction) Value {
+	dch, okD := dst.(*Choice)
+	ach, okA := add.(*Choice)
+	if !okD && !okA {
+		return in.doAppendG(st, tTrue, dst.(SliceVal), add, instr)
+	}
+	var dalts, aalts []Alt
+	if okD {
+		dalts = dch.alts
+	} else {
+		dalts = []Alt{{tTrue, dst}}
+	}
+	if okA {
+		aalts = ach.alts
+	} else {
+		aalts = []Alt{{tTrue, add}}
+	}
+	var out []Alt
+	for _, d := range dalts {
+		for _, a := range aalts {
+			g := And(d.g, a.g)
+			if g == tFalse {
+				continue
+			}
+			out = append(out, Alt{g, in.doAppendG(st, g, d.v.(SliceVal), a.v, instr)})
+		}
+	}
+	return normChoice(out)
+}
+
 func (in *Interp) doAppend(st *State, s SliceVal, add Value, instr ssa.Instruction) Value {
+	return in.doAppendG(st, tTrue, s, add, instr)
+}
+
+func (in *Interp) doAppendG(st *State, g *Term, s SliceVal, add Value, instr ssa.Instruction) Value {
 	var src []Value
 	switch a := add.(type) {
 	case SliceVal:
@@ -2161,7 +2195,14 @@ func (in *Interp) doAppend(st *State, s SliceVal, add Value, instr ssa.Instructi
 		arr := sliceArr(st.heap, s)
 		out := make([]Value, len(arr.elems))
 		copy(out, arr.elems)
-		copy(out[s.off+s.len:], src)
+		for i, v := range src {
+			k := s.off + s.len + i
+			if g == tTrue {
+				out[k] = v
+			} else {
+				out[k] = mergeValue(g, v, arr.elems[k])
+			}
+		}
 		sliceSetArr(st.heap, s, &Agg{elems: out})
 		return SliceVal{obj: s.obj, pre: s.pre, off: s.off, len: need, cap: s.cap}
 	}
